@@ -35,6 +35,7 @@ class Cx:
     self.ck, self.lib, self.lib2, self.d = ck, lib, lib2, data
     self.worst = {}
     self.bitequal = [0, 0]      # (identical, total) rel vs noavx on reductions
+    self.counters = {}
 
   def note(self, name, ratio):
     r = float(ratio)
@@ -637,33 +638,52 @@ def fam_symsparse(cx, rng, n, cls):
   L.mju_sym2dense(Hd, Hv, nv, Hn, Ha, Hc)
   cx.close('sqrMatTDSparse(Symbolic+Numeric)', Hd, Href, K_RED * EPS * Habs, w)
   # one-shot variants: lower triangle only (diagind = NULL) or full symmetric matrix (diagind given, rows sized with flg_upper = 1);
-  # row addresses from the count routine (compressed) or the uncompressed initialiser
+  # row addresses from the count routine (compressed) or the uncompressed initialiser.
+  # The pair (mju_sqrMatTDSparseCount, mju_sqrMatTDSparse) is inconsistent on matrices with an empty column (known finding
+  # 'C23:sqrMatTD-count-empty-column', decided by the dedicated probe in probe_count_empty_column()): in this stream that pair is
+  # therefore fed a copy of J whose empty columns received one entry (construction, counted in the evidence); the uncompressed
+  # variant, the row-based variant (consistent with the count routine) and the Symbolic/Numeric pipeline above see J unchanged,
+  # empty columns included.
   has_empty_col = bool((PJ.sum(axis=0) == 0).any())
+  base = (J, PJ, jv, jn, ja, jc, tv, tn, ta, tc, ts)
+  patched = None
+  if has_empty_col:
+    P2, J2 = PJ.copy(), J.copy()
+    for c_ in np.flatnonzero(PJ.sum(axis=0) == 0):
+      r_ = int(rng.randint(0, nr))
+      P2[r_, c_] = True
+      J2[r_, c_] = rng.normal()
+    jv2, jn2, ja2, jc2, _ = csr(rng, J2, P2, 'compressed')
+    nz2 = int(jn2.sum())
+    tv2, tn2, ta2, tc2, ts2 = np.full(nz2 + 1, GUARD), np.zeros(nv, dtype=np.int32), np.zeros(nv, dtype=np.int32), \
+        np.zeros(nz2 + 1, dtype=np.int32), np.zeros(nv, dtype=np.int32)
+    L.mju_transposeSparse(tv2, jv2, nr, nv, tn2, ta2, tc2, ts2, jn2, ja2, jc2)
+    patched = (J2, P2, jv2, jn2, ja2, jc2, tv2, tn2, ta2, tc2, ts2)
+    cx.counters['count+oneshot pair: empty columns filled by construction'] = \
+        cx.counters.get('count+oneshot pair: empty columns filled by construction', 0) + 1
+    labels.append('count+oneshot:empty-columns-filled')
   for variant in ('count', 'uncompressed', 'row'):
     for full in (0, 1):
-      if has_empty_col and variant != 'uncompressed':
-        # SUSPECTED DEFECT (reported, see LEVEL_NOTE): mju_sqrMatTDSparseCount reserves no slot for the diagonal of an empty
-        # column, while mju_sqrMatTDSparse[_row] writes that diagonal unconditionally -> writes past the counted size.
-        labels.append('count+oneshot-skipped(empty column)')
-        continue
+      Jx, Px, xv, xn, xa, xc, yv, yn, ya, yc, ys = patched if (patched is not None and variant == 'count') else base
+      JPx = Jx * Px
       rn2, ra2 = np.full(nv, -7, dtype=np.int32), np.full(nv, -7, dtype=np.int32)
       if variant == 'uncompressed':
         L.mju_sqrMatTDUncompressedInit(ra2, nv)
         tot = nv * nv
       else:
-        tot = L.mju_sqrMatTDSparseCount(rn2, ra2, nv, jn, ja, jc, tn, ta, tc, ts, d, full)
-      rv2, rc2 = np.full(tot + 2, GUARD), np.full(tot + 2, -7, dtype=np.int32)
+        tot = L.mju_sqrMatTDSparseCount(rn2, ra2, nv, xn, xa, xc, yn, ya, yc, ys, d, full)
+      rv2, rc2 = np.full(tot + nv + 8, GUARD), np.full(tot + nv + 8, -7, dtype=np.int32)
       dgi = np.full(nv, -7, dtype=np.int32)
       use_d = Dg if rng.rand() < 0.7 else None
       fn = L.mju_sqrMatTDSparse_row if variant == 'row' else L.mju_sqrMatTDSparse
-      fn(rv2, jv, tv, use_d, nr, nv, rn2, ra2, rc2, jn, ja, jc, None, tn, ta, tc, ts, d, dgi if full else None)
-      if rv2[tot] != GUARD or rc2[tot] != -7:
+      fn(rv2, xv, yv, use_d, nr, nv, rn2, ra2, rc2, xn, xa, xc, None, yn, ya, yc, ys, d, dgi if full else None)
+      if not (np.all(rv2[tot:] == GUARD) and np.all(rc2[tot:] == -7)):
         raise Violation('sqrMatTDSparse(%s, full=%d) wrote past the counted size; %s' % (variant, full, w()), bucket='sqrMatTD-overrun')
       H2 = np.zeros((nv, nv))
       L.mju_sparse2dense(H2, rv2, nv, nv, rn2, ra2, rc2)
-      ref2 = Href if use_d is not None else JP.T @ JP
-      cx.close('sqrMatTDSparse(%s,full=%d)' % (variant, full), H2, ref2 if full else np.tril(ref2),
-               K_RED * EPS * (Habs if use_d is not None else np.abs(JP).T @ np.abs(JP)), w)
+      ref2 = JPx.T @ (JPx * Dg[:, None]) if use_d is not None else JPx.T @ JPx
+      abs2 = np.abs(JPx).T @ (np.abs(JPx) * Dg[:, None]) if use_d is not None else np.abs(JPx).T @ np.abs(JPx)
+      cx.close('sqrMatTDSparse(%s,full=%d)' % (variant, full), H2, ref2 if full else np.tril(ref2), K_RED * EPS * abs2, w)
       if full:
         for r in range(nv):
           if rn2[r] and not (ra2[r] <= dgi[r] < ra2[r] + rn2[r] and rc2[dgi[r]] == r):
@@ -1017,6 +1037,53 @@ def avx_differential(ck, cx):
     ck.case(nontrivial=n % 4 != 0, key=('avxdiff', n, seed), labels=['avx-vs-scalar'])
 
 
+# ------------------------------------------------------------------------------------------------ dedicated probe (known finding)
+
+def probe_count_empty_column(ck, cx):
+  """mju_sqrMatTDSparseCount + mju_sqrMatTDSparse on matrices WITH an empty column (in scope: "any sparsity pattern").
+  Output buffers are allocated far beyond the counted size and filled with guard words, so a write past the counted size lands
+  in memory owned by these arrays (no heap corruption) and is detected.  Reports through the fingerprint
+  'C23:sqrMatTD-count-empty-column' (listed in known_findings.json while the defect is unrepaired)."""
+  L, d = cx.lib, cx.d
+  SLACK = 256
+  mats = [('1x1 empty', np.zeros((1, 1)), np.zeros((1, 1), dtype=bool)),
+          ('1x2, column 0 empty', np.array([[0.0, 1.5]]), np.array([[False, True]])),
+          ('3x4, column 2 empty', np.array([[1.0, 0, 0, 2.0], [0, 3.0, 0, 0], [0.5, 0, 0, -1.0]]),
+           np.array([[1, 0, 0, 1], [0, 1, 0, 0], [1, 0, 0, 1]], dtype=bool))]
+  rng = np.random.RandomState(0)
+  findings = []
+  for name, J, P in mats:
+    nr, nc = J.shape
+    jv, jn, ja, jc, _ = csr(rng, J, P, 'compressed')
+    nz = int(jn.sum())
+    tv, tn, ta, tc, ts = np.full(nz + SLACK, GUARD), np.zeros(nc + SLACK, dtype=np.int32), np.zeros(nc + SLACK, dtype=np.int32), \
+        np.zeros(nz + SLACK, dtype=np.int32), np.zeros(nc + SLACK, dtype=np.int32)
+    L.mju_transposeSparse(tv, jv, nr, nc, tn, ta, tc, ts, jn, ja, jc)
+    for fname in ('mju_sqrMatTDSparse', 'mju_sqrMatTDSparse_row'):
+      rn, ra = np.full(nc + SLACK, -7, dtype=np.int32), np.full(nc + SLACK, -7, dtype=np.int32)
+      tot = L.mju_sqrMatTDSparseCount(rn, ra, nc, jn, ja, jc, tn, ta, tc, ts, d, 0)
+      rv, rc = np.full(tot + nc * nc + SLACK, GUARD), np.full(tot + nc * nc + SLACK, -7, dtype=np.int32)
+      getattr(L, fname)(rv, jv, tv, None, nr, nc, rn, ra, rc, jn, ja, jc, None, tn, ta, tc, ts, d, None)
+      over_v = np.flatnonzero(rv[tot:] != GUARD)
+      over_c = np.flatnonzero(rc[tot:] != -7)
+      H = np.zeros((nc, nc))
+      ok_layout = all(0 <= ra[r] and ra[r] + rn[r] <= tot + nc * nc for r in range(nc))
+      if ok_layout:
+        L.mju_sparse2dense(H, rv, nc, nc, rn, ra, rc)
+      wrong = not ok_layout or not np.allclose(H, np.tril((J * P).T @ (J * P)), rtol=1e-12, atol=0)
+      if len(over_v) or len(over_c) or wrong:
+        findings.append(dict(matrix=name, routine=fname, counted_nnz=int(tot), rownnz_after=rn[:nc].tolist(), rowadr=ra[:nc].tolist(),
+                             writes_past_counted_size=sorted(set(over_v.tolist()) | set(over_c.tolist())), wrong_result=bool(wrong)))
+      ck.case(nontrivial=True, key=('probe-empty-column', name, fname), labels=['probe:count+oneshot-empty-column'])
+  ck.extra['probe_count_empty_column'] = findings if findings else 'consistent (no overrun, correct result)'
+  if findings:
+    ck.violation('mju_sqrMatTDSparseCount reserves no slot for the diagonal of an EMPTY column, but mju_sqrMatTDSparse (column-based one-shot routine) writes that '
+                 'diagonal unconditionally: with row addresses from the count routine it writes past the counted size / into the next row '
+                 '(%d of %d probe calls affected; first: %s)' % (len(findings), 2 * len(mats), findings[0]),
+                 dict(probe='count+oneshot on matrices with an empty column', findings=findings),
+                 bucket='sqrMatTD-count-empty-column', fingerprint='C23:sqrMatTD-count-empty-column')
+
+
 FAMILIES = dict(blas=fam_blas, chol=fam_chol, lu=fam_lu, band=fam_band, sparse=fam_sparse, symsparse=fam_symsparse, eig3=fam_eig3,
                 boxqp=fam_boxqp, qcqp=fam_qcqp)
 
@@ -1046,7 +1113,9 @@ def main(ck):
             labels=['fam:' + fam] + labels + (['n%4!=0'] if n % 4 else ['n%4==0']))
   strat = st.tuples(st.sampled_from(fams), st.sampled_from(SIZES), st.sampled_from(['well', 'well', 'mid', 'ill']), st.integers(0, 2 ** 31 - 1))
   ck.run_hypothesis(test, strat, ck.budget(2500, 150000), name='linalg')
+  probe_count_empty_column(ck, cx)
   avx_differential(ck, cx)
+  ck.extra['constructions'] = dict(cx.counters)
   ck.extra['worst_ratio'] = {k: float('%.3g' % v) for k, v in sorted(cx.worst.items())}
   ck.extra['avx_vs_scalar_reductions_bit_identical'] = '%d of %d' % tuple(cx.bitequal)
   ck.extra['tolerances'] = dict(K_RED=K_RED, K_FACT=K_FACT)
@@ -1060,9 +1129,11 @@ reverse-Cholesky pipelines, mju_eig3, mju_boxQP and the QCQP helpers are called 
 patterns contain empty and full rows in compressed, uncompressed and gapped layouts. Results are compared with dense numpy counterparts (bit-exactly for elementwise
 kernels and format conversions, within eps-scaled bounds for reductions), by reconstruction / residual (backward error) for factorisations, by the optimality (KKT)
 conditions for the QPs, and between the AVX and the scalar build of the tree.'''
-LEVEL_NOTE = '''Suspected defect kept out of the verdict: for a matrix with an empty column the compressed sizes returned by mju_sqrMatTDSparseCount have no slot
-for that column's diagonal, but mju_sqrMatTDSparse writes the (zero) diagonal unconditionally and overruns the counted buffer (1x1 empty matrix suffices); these two legacy
-routines are therefore only combined on matrices without empty columns (the Symbolic/Numeric pipeline the engine uses is checked on all patterns).
+LEVEL_NOTE = '''Known finding C23:sqrMatTD-count-empty-column: for a matrix with an empty column the compressed sizes returned by mju_sqrMatTDSparseCount have no slot for
+that column's diagonal, but mju_sqrMatTDSparse writes the (zero) diagonal unconditionally and overruns the counted buffer / overwrites the next row's first entry
+(1x1 empty matrix suffices; the row-based mju_sqrMatTDSparse_row is consistent). It is
+decided by a dedicated probe (generous guarded buffers) and reported through that fingerprint; in the random stream this pair receives matrices whose empty columns were filled by
+construction (count in evidence: constructions), while the uncompressed variant, the row-based variant and the Symbolic/Numeric pipeline the engine uses are checked on all patterns.
 Not covered: mju_blockDiag / mju_blockDiagSparse, mju_factorLUSparse / mju_solveLUSparse (tree-topology LU, needs a kinematic tree: exercised through C06),
 mju_cholFactor with a non-trivial mindiag only through the rank count. Rank-one downdates are compared with a tolerance proportional to the condition number and skipped
 above 1e6. QP tolerances are 1e-7..1e-6 relative because the routines stop on absolute thresholds. Trusted: numpy/scipy LAPACK.'''
